@@ -491,7 +491,7 @@ func c19(args []string) {
 				name = "ParamCombinator"
 			}
 			want := la * lb
-			jobs = append(jobs, &c19Job{name: name, s: s, cfg: Cfg{Buf: b, Procs: 2, SoftSec: 8}, label: fmt.Sprintf("3x4 tuples consumed by one process, buffer %d", b),
+			jobs = append(jobs, &c19Job{name: name, s: s, cfg: Cfg{Buf: b, Procs: 2, SoftSec: 8, NoHooks: true}, label: fmt.Sprintf("3x4 tuples consumed by one process, buffer %d", b),
 				oracle: func(res *run.Result, ti *mon.TraceIndex, exp *ref.Result) []mon.Problem {
 					if len(ti.Starts) != want {
 						return []mon.Problem{{Sig: "combinator-not-cartesian-product", Msg: fmt.Sprintf("the consuming process ran %d distinct tasks, the product has %d tuples", len(ti.Starts), want)}}
